@@ -18,6 +18,7 @@ import (
 	"path/filepath"
 	"regexp"
 	"runtime"
+	"strconv"
 
 	"github.com/bluekeyes/go-gitdiff/gitdiff"
 	"github.com/rogpeppe/go-internal/lockedfile"
@@ -164,6 +165,17 @@ func getCurrentVersion(goVersion, patchesVer string) string {
 
 const versionExt = ".version"
 
+// linkerStamp is the expected content of the version file for the linker binary
+// currently at linkerPath. It includes the binary's size, so that a linker left
+// empty or truncated, e.g. by an interrupted copy, is rebuilt rather than executed.
+func linkerStamp(linkerPath, goVersion, patchesVer string) (string, error) {
+	info, err := os.Stat(linkerPath)
+	if err != nil {
+		return "", err
+	}
+	return getCurrentVersion(goVersion, patchesVer) + strconv.FormatInt(info.Size(), 10) + "\n", nil
+}
+
 func checkVersion(linkerPath, goVersion, patchesVer string) (bool, error) {
 	versionPath := linkerPath + versionExt
 	version, err := os.ReadFile(versionPath)
@@ -173,13 +185,23 @@ func checkVersion(linkerPath, goVersion, patchesVer string) (bool, error) {
 	if err != nil {
 		return false, err
 	}
-
-	return string(version) == getCurrentVersion(goVersion, patchesVer), nil
+	stamp, err := linkerStamp(linkerPath, goVersion, patchesVer)
+	if os.IsNotExist(err) {
+		return false, nil
+	}
+	if err != nil {
+		return false, err
+	}
+	return string(version) == stamp, nil
 }
 
 func writeVersion(linkerPath, goVersion, patchesVer string) error {
 	versionPath := linkerPath + versionExt
-	return os.WriteFile(versionPath, []byte(getCurrentVersion(goVersion, patchesVer)), 0o777)
+	stamp, err := linkerStamp(linkerPath, goVersion, patchesVer)
+	if err != nil {
+		return err
+	}
+	return os.WriteFile(versionPath, []byte(stamp), 0o777)
 }
 
 func buildLinker(goRoot, workingDir string, overlay map[string]string, outputLinkPath string) error {
